@@ -1436,7 +1436,14 @@ impl<R: Read> Base64Decoder<R> {
         }
         while self.buffer_size + 3 <= self.buffer.len() {
             let mut input = [0u8; 4];
-            let size = self.read.read(&mut input)?;
+            let mut size = 0;
+            while size < input.len() {
+                let read_size = self.read.read(&mut input[size..])?;
+                if read_size == 0 {
+                    break;
+                }
+                size += read_size;
+            }
             if size == 0 {
                 break;
             } else if size != 4 {
